@@ -87,7 +87,7 @@ ReachWithin(cnb, S, steps) ==       \* core points reachable from S in <= steps 
 
 DensityConnected(cnb, core, p, q) ==
     /\ p \in core /\ q \in core
-    /\ q \in ReachWithin(cnb, {p}, Cardinality(core))
+    /\ q \in ReachWithin(cnb, {p}, Cardinality(core) - 1)
 
 (* CompOf: function 1..n -> 0..n; 0 for non-core points, otherwise the      *)
 (* smallest row number of the point's connected component of the core       *)
